@@ -26,7 +26,7 @@ ASSUMPTIONS = ["requests carry exactly one fleet iff fleets are configured (the 
                "all sites lie within 3 km so the h3 grid distance is defined",
                "activities are assigned by class (the dispatcher reads the class name and, for base charging, the range), without entering them",
                "PYTHONHASHSEED pinned to 0"]
-FLOORS = {"quick": {"groups": 800, "dispatcher_runs_in_histories": 800, "flag:rectangular": 50, "flag:cost_tie": 120, "flag:ineligible_vehicle": 150}, "thorough": {"groups": 100000}}
+FLOORS = {"quick": {"groups": 800, "dispatcher_runs_in_histories": 800, "flag:rectangular": 50, "flag:cost_tie": 120, "flag:ineligible_vehicle": 150}, "thorough": {"groups": 30000}}
 
 ACTS = ["Idle"] * 8 + ["Repositioning"] * 5 + ["ReserveBase", "ReserveBase", "ChargingBase", "DispatchBase", "DispatchStation", "ChargingStation",
         "ChargeQueueing", "DispatchTrip", "ServicingTrip", "OutOfService"]
